@@ -112,9 +112,9 @@ CHECKS["C19"] = dict(
 
 CHECKS["C10"] = dict(
     engine="E3-bmc", ref="DESIGN.md §3.4",
-    technique="z3 QF_BV bounded model checking of N updaters following the step script extracted from the real update_image (lock acquire/read/modify/write-begin/write-end/release, lock path identity) + CrossHair on the lock path function",
+    technique="z3 QF_BV bounded model checking of N updaters following the step scripts extracted from the real update_image by symbolic execution over its environment (lock-file existence / age and the clock are symbolic: one script per environment answer; lock acquire/read/modify/write-begin/write-end/release, probes and unlinks of the lock file, lock path identity) + CrossHair on the lock path function",
     text="For ALL interleavings of 2 (thorough: 3) concurrent updaters of one tile, z3 shows the final tile holds every contribution, no updater reads between another's write-begin and write-end, and all finish; the lock-free variant of the same model is shown to lose an update (non-vacuity). CrossHair confirms the lock path depends on the position only (any format argument, both naming schemes) and differs between tiles.",
-    note="SoftFileLock trusted as an atomic create-exclusive lock; writes modelled as two steps; replay runs the real update_image on real npy files under the solver's interleaving.",
+    note="SoftFileLock trusted as an atomic create-exclusive lock on a marker file; os.path / os.stat / time of toasty.pyramid are environment stubs during extraction (any file age is possible); writes modelled as two steps; replay runs the real update_image on real npy files and real marker files under the solver's interleaving and clock.",
 )
 
 CHECKS["C04"] = dict(
